@@ -41,35 +41,8 @@ def VM.normNil : VM → VM
   | .cons k v t => .cons k v.normNil t.normNil
 end
 
-mutual
-/-- no struct of the type has two fields with the same key (`encoding/json` would drop both, go-zero fills both). -/
-def tyKeysDistinct : Ty → Bool
-  | .prim _ => true
-  | .ptr t => tyKeysDistinct t
-  | .slice t => tyKeysDistinct t
-  | .map t => tyKeysDistinct t
-  | .struct fs => !hasDup fs.keys && fieldsKeysDistinct fs
-def fieldsKeysDistinct : Fields → Bool
-  | .nil => true
-  | .cons _ t rest => tyKeysDistinct t && fieldsKeysDistinct rest
-end
 
-/-- a key that go-zero looks up as it is spelled: not empty and without `.` (go-zero reads `a.b` as the path
-`a` → `b`, encoding/json literally: `std_differs_dotted_key`). -/
-def keyPlain (k : Str) : Bool := decide (k ≠ []) && !k.contains '.'
 
-mutual
-/-- every field key of the type is `keyPlain`. -/
-def tyKeysPlain : Ty → Bool
-  | .prim _ => true
-  | .ptr t => tyKeysPlain t
-  | .slice t => tyKeysPlain t
-  | .map t => tyKeysPlain t
-  | .struct fs => fieldsKeysPlain fs
-def fieldsKeysPlain : Fields → Bool
-  | .nil => true
-  | .cons f t rest => keyPlain f.tagKey && tyKeysPlain t && fieldsKeysPlain rest
-end
 
 /-- the two roundings of a literal into a float of width `bits` agree whenever both succeed
 (`bits = 64`: always; `bits = 32`: the pinned code rounds to float64 first, `float32_double_rounding`). -/
